@@ -107,8 +107,8 @@ def ok_return_blocks(b):
     for i, bl in enumerate(b.blocks):
         for st in bl["stmts"]:
             if st["k"] == "assign" and st["rv"]["k"] == "agg" and st["rv"].get("adt") == "core::result::Result" and st["rv"]["vname"] == "Ok" \
-                    and st["place"]["l"] == 0 and not st["place"]["p"]:
-                out.append((i, st))
+                    and st["place"]["l"] in b.ret_places() and not st["place"]["p"]:
+                out.append((i, st))          # _0, or the return place of an inlined helper whose result is returned as is (tail call)
     return out
 
 
